@@ -47,6 +47,8 @@ func VP_C14_step() {
 	vp.FreezeClock(false)
 	vp.Assert(err == nil, "WriteSector err==nil")
 	// post-state
+	vp.Observe("header entry", int32(r.offsets[z][x]))
+	vp.Observe("image size", len(mem.b))
 	vpValidAnvil(mem.b)
 	vpCheckOccupancy(r, S+4)
 	written := vpChunk{x: x, z: z, length: n, first: data[0], end: data[n-1]}
@@ -154,5 +156,49 @@ func VP_C14_hist2() {
 			vp.Assert(!r2.ExistSector(vpCoords[k][0], vpCoords[k][1]), "never written: absent")
 		}
 	}
+	vp.Cover("end")
+}
+
+// bigger chunks: five sectors and more (beyond any small read buffer), and the
+// two sizes on either side of the 255-sector limit. A write is either refused
+// without touching anything, or accepted and then readable with a valid file.
+func VP_C14_big() {
+	sizes := []int{16381, 20000, 255*4096 - 4, 255*4096 - 3, 1 << 20}
+	n := sizes[vp.Choice(len(sizes))]
+	mem := &vpMemFile{}
+	r, err := CreateWriter(mem)
+	vp.Assert(err == nil, "CreateWriter")
+	small := []byte{vp.Byte()}
+	vp.Assert(r.WriteSector(1, 0, small) == nil, "small chunk first")
+	data := make([]byte, n)
+	marks := []int{0, 4091, 4092, 8188, 12284, 16379, 16380, n - 1}
+	for _, k := range marks {
+		if k < n {
+			data[k] = vp.Byte()
+		}
+	}
+	nlog := len(mem.log)
+	size0 := len(mem.b)
+	err = r.WriteSector(3, 2, data)
+	if err != nil {
+		vp.Assert(len(mem.log) == nlog && len(mem.b) == size0, "refused write touches nothing")
+		vp.Assert(!r.ExistSector(3, 2), "refused chunk is absent")
+	} else {
+		got, err := r.ReadSector(3, 2)
+		vp.Assert(err == nil && len(got) == n, "big chunk reads back with its length")
+		if len(got) == n {
+			for _, k := range marks {
+				if k < n {
+					vp.Assert(got[k] == data[k], "big chunk reads back its bytes")
+				}
+			}
+		}
+		vpValidAnvil(mem.b)
+	}
+	vp.Assert(n > 255*4096-4 || err == nil, "sizes up to the limit are accepted")
+	vp.Assert(n < 1<<20 || err != nil, "sizes over the limit are refused")
+	// the small chunk is untouched either way
+	g, err2 := r.ReadSector(1, 0)
+	vp.Assert(err2 == nil && len(g) == 1 && g[0] == small[0], "other chunk intact")
 	vp.Cover("end")
 }
